@@ -58,6 +58,8 @@ def worker(args):
     c2 = dict(case)
     c2["opts"] = dict(case["opts"])
     c2["opts"]["flavour"] = fl
+    if fl == "c99":
+        c2["opts"]["extra_options"] = ['extra-type="void *"']     # yylex_init_extra/yyget_extra exist
     b = runner.build_scanner(flex, c2, fl, wd, (), "tsan" if threads else "san",
                              util.Rng(case["seed"], "emit"))
     if not b.ok:
@@ -149,7 +151,9 @@ def prefix_link(chk, i):
     rng = chk.rng("prefix", i)
     flex = chk.flex("san")
     d = chk.scratch.sub("link%d" % i)
-    prefixes = ["aa", "bb", "Cc_"][:rng.choice([2, 3])]
+    # (prefixes that merely begin with "yy", one-letter ones, mixed case)
+    prefixes = [["aa", "bb", "Cc_"], ["yya_", "yyb", "zz"], ["y", "yy2", "Y_y"],
+                ["yylex", "yy_", "x1"]][i % 4][:rng.choice([2, 3])]
     reent = (i % 2 == 1)
     objs = []
     expect = []
